@@ -190,6 +190,8 @@ type vfWorld struct {
 	raw           map[string]*sql.DB
 	offlineDigest string
 	cacheSynced   map[string]bool
+	agentSim      *vfAgent
+	stdinFile     *os.File
 }
 
 var vfRunCounter int
